@@ -4,7 +4,7 @@ import QV.Model.Call
 /-! JSON handlers for C07 (`QV.Model.Call`).
 A LogicFun is `{name, args:[[name,[bits…]],…], ret:[name,[bits…]], exps:[[sym,bexp],…]}`; an actual is
 `{list:bool, nested:bool, bits:[bexp…]}`.
-* `c07.bind`  {quirks, types, defs:[fun…] (already bound), fun, orders} -> {defs:[fun…]} (the new `env.defs`)
+* `c07.bind`  {quirks, types, defs:[fun…] (already bound), fun, orders} -> {defs:[fun…]} (the new `env.defs`) | {error} (the definition is refused)
 * `c07.call`  {quirks, defs:[fun…], name, actuals} -> {known:false} | {error} | {ok:[bexp…]}
 * `c07.oraclize` {quirks, fun, name} -> {after, passed, called}
 * `c07.triggers` {fun (bound), actuals, prefix, exps} -> trigger predicates -/
@@ -55,16 +55,16 @@ def bindOp (j : Json) : R Json := do
   let types := match j.getObjValAs? (List String) "types" with | .ok l => l | .error _ => []
   let defs ← getFuns j "defs"
   let f ← parseFun (← j.getObjVal? "fun")
-  let r := envBind q types defs (getOrders j) f
-  pure (Json.mkObj [("defs", Json.arr (r.map funJ).toArray)])
+  match envBind q types defs (getOrders j) f with
+  | .ok r => pure (Json.mkObj [("defs", Json.arr (r.map funJ).toArray)])
+  | .error e => pure (Json.mkObj [("error", Json.str e)])
 
 def callOp (j : Json) : R Json := do
   let q := getQuirks j
   let defs ← getFuns j "defs"
   let name ← j.getObjValAs? String "name"
   let acts ← (← (← j.getObjVal? "actuals").getArr?).toList.mapM parseActual
-  if !knowFunction defs name then return Json.mkObj [("known", toJson false)]
-  match getDef defs name with
+  match resolve defs name with
   | none => return Json.mkObj [("known", toJson false)]
   | some df =>
     match callSite q df acts with
